@@ -78,6 +78,12 @@ def plan(tier, seed):
         specs.append(dict(kind='random', seed=seed * 1000 + s, cfgs=cfgs,
                           examples=1500 if tier == 'thorough' else 400,
                           max_len=60 if tier == 'thorough' else 40))
+    for s in range(4 if tier == 'thorough' else 1):
+        specs.append(dict(kind='random', seed=seed * 1000 + 90 + s,
+                          cfgs=cfgs, pyopt=True,
+                          exclude=['bad', 'full', 'decref_zero'],
+                          examples=800 if tier == 'thorough' else 200,
+                          max_len=40))
     depth = 6 if tier == 'thorough' else 4
     specs += H.exhaustive_plan(dict(kind='bdd', nmax=2, init_vars=2),
                                LETTERS, depth, seed)
